@@ -140,7 +140,41 @@ NL_BODIES = {
               ("apply_scale", "x, n", ["integer :: i", "do i = 1, n", "  x(i) = x(i) * scale", "end do"]),
               ("reset_scale", "", ["scale = total"])],
 }
-NL_DOM = [("n", [0, 1, 3]), ("scale", [[1, 2]]), ("total", [[3, 1]]), ("cnt", [1])]
+# state of a SECOND module, imported by routines of the call tree (and a constant, which
+# needs no recording)
+NL_AUX = '''module nlaux
+  implicit none
+  real :: ascale
+  real :: scale
+  integer :: acnt
+  real, parameter :: aconst = 2.0
+end module nlaux
+'''
+NL_AUX_TYPES = {"ascale": "r", "scale": "r", "acnt": "i", "aconst": "r"}
+NL_BODIES.update({
+    "xmod_read": [("top", "x, n", ["call by_aux(x, n)"]),
+                  ("by_aux", "x, n", ["use nlaux, only: ascale, aconst", "x(1) = x(1) * ascale * aconst"])],
+    "xmod_rw": [("top", "x, n", ["call bump_aux()", "call put(x)"]),
+                ("bump_aux", "", ["use nlaux, only: acnt", "acnt = acnt + 1"]),
+                ("put", "x", ["use nlaux, only: acnt", "real, dimension(0:9), intent(inout) :: x",
+                              "x(acnt) = total"])],
+    "xmod_write_then_read": [("top", "x, n", ["call set_aux()", "call by_aux(x, n)"]),
+                             ("set_aux", "", ["use nlaux, only: ascale", "ascale = 1.5"]),
+                             ("by_aux", "x, n", ["use nlaux, only: ascale", "x(1) = x(1) * ascale"])],
+    "xmod_read_then_write": [("top", "x, n", ["call by_aux(x, n)", "call set_aux()"]),
+                             ("set_aux", "", ["use nlaux, only: ascale", "ascale = 1.5"]),
+                             ("by_aux", "x, n", ["use nlaux, only: ascale", "x(1) = x(1) * ascale"])],
+    # the same name in both modules: the routine that imports it sees nlaux's variable
+    "xmod_samename": [("top", "x, n", ["call reset_own()", "call by_other(x)"]),
+                      ("reset_own", "", ["scale = 1.0"]),
+                      ("by_other", "x", ["use nlaux, only: scale",
+                                         "real, dimension(0:9), intent(inout) :: x", "x(2) = scale"])],
+    "xmod_samename2": [("top", "x, n", ["call reset_other()", "x(1) = scale"]),
+                       ("reset_other", "", ["use nlaux, only: scale", "scale = 4.0"])],
+})
+NL_DOM = [("n", [0, 1, 3]), ("scale", [[1, 2]]), ("total", [[3, 1]]), ("cnt", [1]),
+          ("nlaux::ascale", [[3, 2]]), ("nlaux::scale", [[5, 1]]), ("nlaux::acnt", [2]),
+          ("nlaux::aconst", [[2, 1]])]
 
 
 def nl_items(tier):
@@ -175,6 +209,8 @@ def _build_nl(item):
     try:
         with open(os.path.join(tmp, "nlmod.f90"), "w") as f:
             f.write(src)
+        with open(os.path.join(tmp, "nlaux.f90"), "w") as f:
+            f.write(NL_AUX)
         ModuleManager._instance = None        # fresh manager per case
         mm = ModuleManager.get()
         mm.add_search_path(tmp)
@@ -185,8 +221,10 @@ def _build_nl(item):
             todo = ctu.get_non_local_symbols(routine)
             rwi = ReadWriteInfo()
             ctu._resolve_calls_and_unknowns(todo, rwi)      # pylint: disable=protected-access
-            inputs = sorted({str(sig).lower() for _, sig in rwi.read_list})
-            outputs = sorted({str(sig).lower() for _, sig in rwi.write_list})
+            def nm(mod, sig):      # store name: variables of the other module are qualified
+                return str(sig).lower() if mod.lower() == "nlmod" else f"{mod.lower()}::{str(sig).lower()}"
+            inputs = sorted({nm(mod, sig) for mod, sig in rwi.read_list})
+            outputs = sorted({nm(mod, sig) for mod, sig in rwi.write_list})
         except Exception as err:   # noqa
             return [{"id": cid, "status": "crash", "why": f"{type(err).__name__}: {err}"[:200]}]
         finally:
@@ -195,10 +233,13 @@ def _build_nl(item):
         r = sem.routine_named(psy, "s")
         try:
             ex = sem.Exporter()
+            ex.import_types = dict(NL_AUX_TYPES)
             ex.track_range = (r, 0, 1)
             # the dummies of s are inputs of the replay as well (the property is about the
-            # module variables; x and n are passed explicitly)
-            ex.track_fields = {"inputs": inputs + ["x", "n"]}
+            # module variables; x and n are passed explicitly); a named constant of the other
+            # module is part of the driver's source, not of the recorded data
+            given = ["x", "n", "nlaux::aconst"]
+            ex.track_fields = {"inputs": inputs + given}
             prog = ex.routine(r)
         except Unsupported as err:
             return [{"id": cid, "status": "unsupported", "why": str(err)}]
@@ -207,7 +248,7 @@ def _build_nl(item):
         case = {"id": cid, "mode": "region", "decls": prog["decls"],
                 "dom": [[n, v] for n, v in NL_DOM if n in names], "fills": FILLS,
                 "subs": prog["subs"], "body": prog["body"],
-                "inputs": inputs + ["x", "n"], "outputs": outputs + ["x"]}
+                "inputs": inputs + given, "outputs": outputs + ["x"]}
         return [{"id": cid, "status": "ok", "case": case, "region": "call top(x, n)  [module variables "
                  + ", ".join(modvars) + "]", "src": src, "inputs": inputs, "outputs": outputs,
                  "source": "get_non_local_symbols + _resolve_calls_and_unknowns", "extract": "n/a"}]
